@@ -541,6 +541,9 @@ class Alias(GraphNode):
             sub_key = subs.get(self.key, self.key)
             val = subs.get(self.target, self.target)
             if sub_key == self.key and val == self.target:
+                if key is not None and key != self.key:
+                    # Nothing to substitute: rename only
+                    return Alias(key, self.target)
                 return self
             if isinstance(val, (GraphNode, TaskRef)):
                 return val.substitute({}, key=key)
